@@ -84,6 +84,7 @@ func applyProfile(w *World, p *Profile) {
 func resetGlobals(seed uint64) {
 	gkvlite.VerifResetAlloc()
 	gkvlite.VerifYield = nil
+	gkvlite.VerifLockHook = nil
 	rand.Seed(int64(seed & 0x7fffffffffffffff))
 }
 
